@@ -70,7 +70,7 @@ Theorem C11_owned : forall k ENV A B c, gen_pre k A c ->
 Proof. exact gen_twin. Qed.
 
 Example C11_nonvacuous :
-  let E := mkEnv (fun _ => false) (fun _ => 0) in
+  let E := mkEnv (fun _ => false) (fun _ => 0) (fun _ _ => 0) in
   Root.cast_ref E (mkTy 4 1) (mkTy 4 4) (mkPtr 4097 4) = Panic (W_msg "cast_ref" (EP TargetAlignmentGreaterAndInputNotAligned)) /\
   Root.cast_ref E (mkTy 4 1) (mkTy 4 4) (mkPtr 4096 4) = Ret (mkPtr 4096 4).
 Proof. split; vm_compute; reflexivity. Qed.
